@@ -240,3 +240,25 @@ class _:
                     elif not _same_canon(ref[name], c):
                         raise Fail(f"order-dependent:{name}", f"orders {oa} / {ob}: {c} vs {ref[name]}")
                 first = False
+
+
+@check("c06.allsubs", ["C06", "C03"], ["pyttb.sptensor.sptensor.allsubs"])
+class _:
+    """Validates the ASSUMED contract of sptensor.allsubs used by the proofs: row l is
+    UNRAVEL_C(shape, l) -- every in-range subscript exactly once, last mode fastest."""
+
+    def cases(self, tier, rng):
+        from .core import shapes_upto
+        for shp in shapes_upto(12 if tier == "quick" else 36, 4):
+            yield dict(shape=list(shp))
+
+    def run(self, case):
+        from .core import f_linear
+        ttb = import_pyttb()
+        shp = tuple(case["shape"])
+        A = ttb.sptensor(shape=shp).allsubs()
+        if A.shape != (int(np.prod(shp)), len(shp)) or not np.issubdtype(A.dtype, np.integer):
+            raise Fail("allsubs:shape-or-dtype", f"{case}: {A.shape} {A.dtype}")
+        for l, row in enumerate(A.tolist()):
+            if f_linear(shp[::-1], row[::-1]) != l or any(not (0 <= r < d) for r, d in zip(row, shp)):
+                raise Fail("allsubs:row-is-not-UNRAVEL_C", f"{case}: row {l} = {row}")
